@@ -266,9 +266,7 @@ class World(BaseWorld):
             raise HarnessError("unknown op %r" % op["op"])
         W.MON.fired.clear()
         out = fn(op)
-        if W.MON.fired:
-            self.note("monitor_fired", len(W.MON.fired))
-            W.MON.fired.clear()
+        self.monitor_after_op(op)
         self.note("op_" + op["op"])
         return out
 
